@@ -234,8 +234,8 @@ func (a *API) Crashed() bool {
 
 // List returns all objects of a resource sorted by key.
 func (a *API) List(resource string) []runtime.Object {
-	a.mu.Lock()
-	defer a.mu.Unlock()
+	// Readers take no lock: they run either between steps or inside OnWrite
+	// (which is called with the lock held by the writing goroutine).
 	return a.listLocked(resource)
 }
 
@@ -254,8 +254,6 @@ func (a *API) listLocked(resource string) []runtime.Object {
 
 // Get returns the stored object (not a copy; callers must not mutate) or nil.
 func (a *API) Get(resource, key string) runtime.Object {
-	a.mu.Lock()
-	defer a.mu.Unlock()
 	return a.objs[resource][key]
 }
 
@@ -616,8 +614,6 @@ func faultError(kind FaultKind, resource, name string) error {
 
 // Dump returns every stored object as canonical JSON keyed by resource/key.
 func (a *API) Dump() map[string]json.RawMessage {
-	a.mu.Lock()
-	defer a.mu.Unlock()
 	out := map[string]json.RawMessage{}
 	for r, m := range a.objs {
 		for k, o := range m {
@@ -630,4 +626,49 @@ func (a *API) Dump() map[string]json.RawMessage {
 
 func notFound(resource, name string) error {
 	return kerrors.NewNotFound(groupResources[resource], name)
+}
+
+// APISnapshot is a copy-on-write snapshot of the API content. Stored objects
+// are immutable (every write stores a fresh copy), so maps are copied shallowly.
+type APISnapshot struct {
+	objs map[string]map[string]runtime.Object
+	rv   int64
+	inc  map[string]int
+}
+
+// Snapshot captures the API content.
+func (a *API) Snapshot() *APISnapshot {
+	s := &APISnapshot{objs: map[string]map[string]runtime.Object{}, rv: a.rv, inc: map[string]int{}}
+	for r, m := range a.objs {
+		c := make(map[string]runtime.Object, len(m))
+		for k, v := range m {
+			c[k] = v
+		}
+		s.objs[r] = c
+	}
+	for k, v := range a.inc {
+		s.inc[k] = v
+	}
+	return s
+}
+
+// Restore resets the API content to a snapshot.
+func (a *API) Restore(s *APISnapshot) {
+	a.objs = map[string]map[string]runtime.Object{}
+	for r, m := range s.objs {
+		c := make(map[string]runtime.Object, len(m))
+		for k, v := range m {
+			c[k] = v
+		}
+		a.objs[r] = c
+	}
+	a.rv = s.rv
+	a.inc = map[string]int{}
+	for k, v := range s.inc {
+		a.inc[k] = v
+	}
+	a.calls = nil
+	a.callCount = map[string]int{}
+	a.Faults = nil
+	a.crashed = false
 }
